@@ -195,6 +195,9 @@ class FullWorld(wire.World):
                 conn.user = c
                 self.conns.append(c)
                 self.k.note("srv accept", c.no)
+                # like a real server, the double does not wait for ever for a login to complete
+                self.k.call_later(20.0, lambda c=c: (self.k.note("srv gives up on handshake", c.no), c.close())
+                                  if not c.transport and not c.dead else None)
                 self.on_accept(c)
             elif kind == "data":
                 c = conn.user
